@@ -689,6 +689,24 @@ theorem assign_then_eval (s : RState V S) (i : ℕ) (a : List (ℕ × V)) :
       (rstep s (.assign i a)).1.pit = s.pit ∧ (rstep s (.assign i a)).1.reg = s.reg :=
   ⟨rfl, rfl, rfl, rfl⟩
 
+/-- `compute_unitary(assign=a)` after any history: when it returns a matrix, that matrix is the ordered product
+of the leaves' matrices under the store in which the registered parameters named in `a` have the given values
+(the store `assignMany` computes by looking the names up in the registry of that circuit) -/
+theorem assign_eval_after_any_history (e : PEnv V) (next : ℕ) (ops : List (ROp V S)) (i : ℕ)
+    (a : List (ℕ × V))
+    (M : Matrix (Fin ((rexec (RState.empty e next) (ops ++ [.assign i a])).w.heap.msize i))
+      (Fin ((rexec (RState.empty e next) (ops ++ [.assign i a])).w.heap.msize i)) S)
+    (h : (rexec (RState.empty e next) (ops ++ [.assign i a])).reval i = some M) :
+    let s := rexec (RState.empty e next) ops
+    let s' := rexec (RState.empty e next) (ops ++ [.assign i a])
+    s'.w.heap = s.w.heap ∧ s'.w.env = (assignMany (s.reg i) s.w.env a).1 ∧
+      M = prodFlat (s'.w.heap.msize i) (Flat.mapC (atEnv s'.w.env) (flatten (snapshot s'.w.heap i))) := by
+  intro s s'
+  have hs' : s' = (rstep s (.assign i a)).1 := by
+    simp only [s', s, rexec, List.foldl_append, List.foldl_cons, List.foldl_nil]
+  refine ⟨by rw [hs']; rfl, by rw [hs']; rfl, ?_⟩
+  exact (reval_after_any_history e next (ops ++ [.assign i a]) i M h).1
+
 end evaluation
 
 /-! ### `copy()` / `copy(subs=σ)` with undefined parameters -/
@@ -846,6 +864,30 @@ example : RInv (rexec st0 exReg) ∧ RegExact (rexec st0 exReg) ∧ Occ (rexec s
    rexec_regExact _ _ (empty_inv _ _) (empty_regExact _ _) (by decide +kernel) (by decide +kernel),
    occAt_sound _ 3 0 vz (by decide +kernel)⟩
 
+/-- hypothesis of `assign_unknown_name`: the copy (entry 3) reaches no parameter named "y" (it was substituted) -/
+example : ∀ v, Occ (rexec st0 exReg).pit 3 v → v.name ≠ 1 := by
+  intro v hv
+  have hm := (mem_occ_iff (rexec_inv exReg _ (empty_inv _ _)) 3 v).mpr hv
+  have hall : ∀ u ∈ (rexec st0 exReg).occ 3, u.name ≠ 1 := by decide +kernel
+  exact hall v hm
+
+/-- hypothesis of `reval_after_any_history` / `assign_eval_after_any_history`: an evaluation that succeeds -/
+def exEval : List (ROp ℕ ℤ) :=
+  [.new 1 0, .leaf 0 0 1 [vx] (fun _ _ _ => 1), .assign 0 [(0, 3)]]
+
+example : ((rexec (RState.empty (fun _ => none) 4) exEval).reval 0).isSome = true ∧
+    ((rexec (RState.empty (fun _ => none) 4) (exEval.take 2)).reval 0).isSome = false := by
+  constructor <;> decide +kernel
+
+/-- `rebind` on concrete data: frozen, substituted, fresh -/
+example : rebind (fun p => if p = 0 then some 5 else none) (fun n => if n = 1 then some 7 else none)
+      [vx, vy, vz] [2] 4 (fun p => if p = 4 then some 9 else none) 0 = some 5 ∧
+    rebind (fun p => if p = 0 then some 5 else none) (fun n => if n = 1 then some 7 else none)
+      [vx, vy, vz] [2] 4 (fun p => if p = 4 then some 9 else none) 1 = some 7 ∧
+    rebind (fun p => if p = 0 then some 5 else none) (fun n => if n = 1 then some 7 else none)
+      [vx, vy, vz] [2] 4 (fun p => if p = 4 then some 9 else none) 2 = some 9 := by
+  refine ⟨?_, ?_, ?_⟩ <;> decide +kernel
+
 /-- WITNESS 1 (a failed `add` leaves a stale parameter): `c.add(0, PS(x))`, then
 `c.add(0, BS(theta=y, phi_tl=x'))` with another parameter named "x" raises `RuntimeError` in the middle of
 the loop: `y` stays in `c._params` although no leaf of `c` has it. -/
@@ -899,15 +941,20 @@ end witnesses
 
 /-
   Outside the model (see manifest.d/C01.json):
-  * validated only: the symbolic path — `compute_unitary(use_symbolic=True)` is compared, after numeric
-    evaluation of its entries (with values, and with the variables left symbolic and substituted afterwards),
-    with the same product; `unitaryOf_map` is the statement behind it, sympy itself is trusted;
+  * validated only: the symbolic path — `compute_unitary(use_symbolic=True)` is compared, after numeric evaluation
+    of its entries (with values, and with the variables left symbolic and substituted afterwards), with the same
+    product; `unitaryOf_map` is the statement behind it, sympy itself is trusted;
   * validated only: which Python object stands for which pool entry (`a // x`, `a @ x` on a `Circuit` return a
-    second handle on the same entry; the harness evaluates through every handle);
+    second handle on the same entry — and on the same `_params` dict; the harness works through every handle);
+  * validated only: that the slots a leaf declares are the parameters its matrix reads; that the flat slot list kept
+    for a by-value sub-tree of a copy behaves like the nested tree (`copyNames_eq` is the reason);
+    `copy(subs=[Parameter…])` / `copy(subs={"name": v})` substitute nothing (string keys never match sympy symbols):
+    modelled as `σ = ∅`, exercised on every run;
   * stated, not proved: every acyclic history of the real API is a ranked history;
-  * not modelled: undefined parameters at `copy()` / evaluation time, the per-circuit parameter registry
-    (`_params`, `assign={…}`), bounds and periodic wrapping of `Parameter` (C14), `Expression` parameters,
-    `copy(subs=…)`, polarisation (C13), `inverse` (C11), cyclic `add` (evaluation does not terminate).
+  * `registry_exact` is a sufficient condition with necessity witnesses, not an equivalence for every history;
+  * not modelled: `Expression` parameters, bounds and periodic wrapping of `Parameter` (C14), `fix_value`,
+    `reset_parameters`, polarisation (C13), `inverse` (C11), `getitem` / `depths` / `ncomponents`, cyclic `add`
+    (evaluation does not terminate).
 -/
 
 end PM.C01
